@@ -174,6 +174,9 @@ func cmdCheck(args []string) int {
 		if r.Stale {
 			fmt.Printf("STALE-CONTRACT %s\n", r.Key)
 		}
+		for _, ee := range r.EvalErrs {
+			fmt.Printf("CONTRACT-EVAL-ERROR %s\n", ee)
+		}
 		obs = append(obs, r.Obs...)
 	}
 	for _, ce := range w.contractErrors {
